@@ -110,6 +110,19 @@ def primitives(ctx, rule):
                         ok = len(ins) == 1 and not pu and strip_refs(ins[0].args[1]) == ("param", 2) and strip_refs(ins[0].args[2]) == ("param", 3)
                     seen_arms.add(found)
                     how = "get_mut(&var): found -> existing.push(&val), absent -> insert(var, val)"
+                # ... or with a match on entry(var): Occupied(e) -> e.get_mut() / e.into_mut() .push(&val); Vacant(e) -> e.insert(val)
+                en = [c for c in p.conds() if c.term[0] == "discr" and is_call(strip_refs(c.term[1]), "HashMap::entry") and strip_refs(call_args(strip_refs(c.term[1]))[1]) == ("param", 2)]
+                if en and not gm:
+                    g = strip_refs(en[-1].term[1])
+                    vins = [e for e in p.events if e.kind == "call" and e.name.endswith("VacantEntry::insert")]
+                    if en[-1].fact == ("eq", 0):
+                        ok = len(pu) == 1 and not ins and not vins and strip_refs(pu[0].args[1]) == ("param", 3) and \
+                            is_call(strip_refs(pu[0].args[0]), "OccupiedEntry::get_mut", "OccupiedEntry::into_mut") and mentions(pu[0].args[0], lambda s_: s_ == ("downcast", g, "Occupied"))
+                        seen_arms.add(True)
+                    elif en[-1].fact == ("eq", 1):
+                        ok = len(vins) == 1 and not pu and not ins and strip_refs(vins[0].args[1]) == ("param", 3) and mentions(vins[0].args[0], lambda s_: s_ == ("downcast", g, "Vacant"))
+                        seen_arms.add(False)
+                    how = "match entry(var): Occupied -> existing.push(&val), Vacant -> insert(val)"
             ctx.check(ok, rule, WRITERS[1], "modify-or-insert-%d" % i, how,
                       "insert_or_push is not `append val to the existing value, or insert val when there is none`", fn_span(body))
         if seen_arms:
